@@ -47,6 +47,7 @@ inductive Err where
   | queryString | variables | extensions          -- GET
   | invalidRequest | unsupportedBatch             -- body
   | invalidMultipart | missingOperations | missingMap
+  | invalidFilesMap | missingFiles
   | panic                                         -- never required; only a defective model produces it
   deriving Repr, DecidableEq, Inhabited
 
@@ -160,6 +161,166 @@ def decodeMultipartAux : List Part → Option BatchReq → Bool → Except Err B
   | .other :: rest, req, m => decodeMultipartAux rest req m
 
 def decodeMultipart (parts : List Part) : Except Err BatchReq := decodeMultipartAux parts none false
+
+-- ------------------------------------------------------------------ the byte layer
+/-
+  At the transport boundary a request is bytes.  JSON text is UTF-8 (RFC 8259 §8.1) whatever a
+  content type's `charset` parameter or a `Content-Transfer-Encoding` header of a multipart part
+  says, and there is no byte order mark to strip; GET values are UTF-8 after percent-decoding.
+  Decoding is STRICT: a byte sequence that is not the UTF-8 form of a sequence of scalar values
+  (overlong forms, surrogates, values above U+10FFFF, stray or missing continuation bytes) is a
+  malformed encoding and is refused, never repaired.  "The same request from every transport"
+  therefore means: every transport applies `utf8Decode` to the bytes it received (GET: to the
+  percent-decoded bytes of every key and value; body, batch element and `operations` part: to
+  the document) and then the text-level reference decoder; bytes one transport refuses, all refuse.
+-/
+
+abbrev Bytes := List UInt8
+
+def inRange (lo hi x : Nat) : Bool := decide (lo ≤ x) && decide (x ≤ hi)
+
+/-- one step of UTF-8 decoding on byte values: the scalar value at the front and the rest, or
+    the rest behind the maximal ill-formed prefix (Unicode §3.9, table 3-7) -/
+inductive Utf8Step where
+  | char (n : Nat) (rest : List Nat)
+  | bad (rest : List Nat)
+  deriving Repr
+
+def utf8Step (b0 : Nat) (tl : List Nat) : Utf8Step :=
+  if b0 < 0x80 then .char b0 tl
+  else if b0 < 0xC2 then .bad tl
+  else if b0 < 0xE0 then
+    match tl with
+    | b1 :: r1 => if inRange 0x80 0xBF b1 then .char ((b0 - 0xC0) * 64 + (b1 - 0x80)) r1 else .bad tl
+    | [] => .bad tl
+  else if b0 < 0xF0 then
+    match tl with
+    | b1 :: r1 =>
+      if inRange (if b0 = 0xE0 then 0xA0 else 0x80) (if b0 = 0xED then 0x9F else 0xBF) b1 then
+        match r1 with
+        | b2 :: r2 =>
+          if inRange 0x80 0xBF b2 then .char ((b0 - 0xE0) * 4096 + (b1 - 0x80) * 64 + (b2 - 0x80)) r2
+          else .bad r1
+        | [] => .bad r1
+      else .bad tl
+    | [] => .bad tl
+  else if b0 < 0xF5 then
+    match tl with
+    | b1 :: r1 =>
+      if inRange (if b0 = 0xF0 then 0x90 else 0x80) (if b0 = 0xF4 then 0x8F else 0xBF) b1 then
+        match r1 with
+        | b2 :: r2 =>
+          if inRange 0x80 0xBF b2 then
+            match r2 with
+            | b3 :: r3 =>
+              if inRange 0x80 0xBF b3 then
+                .char ((b0 - 0xF0) * 262144 + (b1 - 0x80) * 4096 + (b2 - 0x80) * 64 + (b3 - 0x80)) r3
+              else .bad r2
+            | [] => .bad r2
+          else .bad r1
+        | [] => .bad r1
+      else .bad tl
+    | [] => .bad tl
+  else .bad tl
+
+def Utf8Step.rest : Utf8Step → List Nat
+  | .char _ r => r
+  | .bad r => r
+
+theorem utf8Step_rest_le (b0 : Nat) (tl : List Nat) : (utf8Step b0 tl).rest.length ≤ tl.length := by
+  unfold utf8Step
+  repeat' split
+  all_goals simp [Utf8Step.rest] <;> omega
+
+set_option linter.unusedVariables false in
+/-- strict UTF-8 decoding of byte values -/
+def utf8DecodeN : List Nat → Option (List Char)
+  | [] => some []
+  | b0 :: tl =>
+    match h : utf8Step b0 tl with
+    | .char n rest =>
+      match utf8DecodeN rest with
+      | some cs => some (Char.ofNat n :: cs)
+      | none => none
+    | .bad _ => none
+termination_by l => l.length
+decreasing_by
+  have := utf8Step_rest_le b0 tl
+  rw [h] at this
+  simp [Utf8Step.rest] at this
+  simp; omega
+
+/-- strict UTF-8 decoding: total, no repair, no byte order mark handling -/
+def utf8Decode (bs : Bytes) : Option (List Char) := utf8DecodeN (bs.map UInt8.toNat)
+
+/-- the UTF-8 form of a scalar value, as byte values -/
+def utf8EncodeCharN (c : Char) : List Nat :=
+  let n := c.toNat
+  if n < 0x80 then [n]
+  else if n < 0x800 then [0xC0 + n / 64, 0x80 + n % 64]
+  else if n < 0x10000 then [0xE0 + n / 4096, 0x80 + n / 64 % 64, 0x80 + n % 64]
+  else [0xF0 + n / 262144, 0x80 + n / 4096 % 64, 0x80 + n / 64 % 64, 0x80 + n % 64]
+
+def utf8EncodeN : List Char → List Nat
+  | [] => []
+  | c :: cs => utf8EncodeCharN c ++ utf8EncodeN cs
+
+def utf8Encode (cs : List Char) : Bytes := (utf8EncodeN cs).map Nat.toUInt8
+
+/-- a body (or batch element, or `operations` part): UTF-8, then JSON text, then the request shape -/
+def decodeBodyBytes (parse : Str → Option J) (bs : Bytes) : Except Err BatchReq :=
+  match utf8Decode bs with
+  | none => .error .invalidRequest
+  | some t => match parse t with
+    | none => .error .invalidRequest
+    | some j => decodeBody j
+
+def utf8Pair (p : Bytes × Bytes) : Option (Str × Str) :=
+  match utf8Decode p.1, utf8Decode p.2 with
+  | some k, some v => some (k, v)
+  | _, _ => none
+
+/-- GET: every percent-decoded key and value must be UTF-8 -/
+def decodeGetBytes (parse : Str → Option J) (ps : List (Bytes × Bytes)) : Except Err Req :=
+  match allSome utf8Pair ps with
+  | none => .error .queryString
+  | some tps => decodeGet parse tps
+
+/-- the `map` part of a multipart body: a JSON object from names of file parts to lists of
+    variable paths -/
+def filesMapOf : J → Option (List (Str × List Str))
+  | .obj kvs => allSome (fun (p : Str × J) => match p.2 with
+      | .arr xs => (allSome (fun (x : J) => match x with | .str s => some s | _ => none) xs).map (fun ss => (p.1, ss))
+      | _ => none) kvs
+  | _ => none
+
+/-- parts of a multipart body, as bytes -/
+inductive BPart where
+  | ops (contentType : Option Str) (body : Bytes)
+  | map (body : Bytes)
+  | other
+  deriving Repr, Inhabited
+
+/-- as `decodeMultipartAux`, from bytes; `files` = the map read so far.  There are no file parts
+    here, so a map that names one refers to a missing file. -/
+def decodeMultipartBytesAux (parse : Str → Option J) :
+    List BPart → Option BatchReq → Option (List (Str × List Str)) → Except Err BatchReq
+  | [], none, _ => .error .missingOperations
+  | [], some _, none => .error .missingMap
+  | [], some r, some m => if m.isEmpty then .ok r else .error .missingFiles
+  | .ops ct bs :: rest, _, m =>
+    if isMultipartType ct then .error .invalidRequest
+    else match decodeBodyBytes parse bs with
+      | .ok r => decodeMultipartBytesAux parse rest (some r) m
+      | .error e => .error e
+  | .map bs :: rest, req, _ =>
+    match (utf8Decode bs).bind parse |>.bind filesMapOf with
+    | some m => decodeMultipartBytesAux parse rest req (some m)
+    | none => .error .invalidFilesMap
+  | .other :: rest, req, m => decodeMultipartBytesAux parse rest req m
+
+def decodeMultipartBytes (parse : Str → Option J) (parts : List BPart) : Except Err BatchReq :=
+  decodeMultipartBytesAux parse parts none none
 
 inductive BatchResp (ρ : Type) where
   | single (r : ρ)
